@@ -2,6 +2,7 @@
 expressions in source order, the unwrap calls, the narrowing casts and the usize subtractions."""
 import re
 import facts as F
+import sitekeys as SK
 
 REL = "sudachi/src/analysis/lattice.rs"
 FNS = ["reset_vec", "reset", "connect_bos", "connect_eos", "insert", "connect_node", "has_previous_node", "node",
@@ -71,6 +72,7 @@ def gen():
     out = [F.HEADER]
     out.append("(* analysis/lattice.rs, per function: (name, index expressions in source order, unwrap calls, narrowing casts, usize subtractions);\n   lattice_index_total counts brackets (v[i][j] = 2), as the inventory of Generated/PanicSites.v does *)\n")
     rows = []
+    krows = []
     total_idx = 0
     total_unwrap = 0
     total_cast = 0
@@ -85,11 +87,14 @@ def gen():
         total_idx += sum(x.count("[") for x in idx)
         total_unwrap += unwraps
         total_cast += len(casts)
+        krows.append((fn, SK.keys(idx, unwraps, 0, casts, subs)))
         rows.append('("%s", [%s], %d%%N, [%s], [%s])' % (fn, "; ".join('"%s"' % x for x in idx), unwraps,
                                                          "; ".join('"%s"' % x for x in casts), "; ".join('"%s"' % x for x in subs)))
     known = set(FNS)
     others = [f for f in re.findall(r"\bfn\s+(\w+)", t) if f not in known]
     out.append("Definition lattice_fns : list (string * list string * N * list string * list string) :=\n  [ %s ].\n" % ";\n    ".join(rows))
+    out.append("(* the same constructs as keys (gen/sitekeys.py): what the one-directional obligation C03_fact_lattice_sites compares *)\n")
+    out.append("Definition lattice_site_keys : list (string * list string) :=\n  [ %s ].\n" % SK.coq_rows(krows))
     out.append("(* functions of the file outside the list above (trait glue: right_id, total_cost, new, default, fmt) *)\n")
     out.append("Definition lattice_other_fns : list string := [%s].\n" % "; ".join('"%s"' % f for f in others))
     out.append("Definition lattice_index_total : N := %d%%N.\nDefinition lattice_unwrap_total : N := %d%%N.\nDefinition lattice_cast_total : N := %d%%N.\n" % (total_idx, total_unwrap, total_cast))
